@@ -33,4 +33,43 @@ CLAIMED['C07'] = dict(
     technique='Lean 4 theorems over the event-queue model + differential correspondence',
 )
 
+CLAIMED['C10'] = dict(
+    text='Theorems (Props/C10.lean): for the waiting-list scan with ARBITRARY callbacks (only interface laws assumed): a '
+         'callback runs only for a request that fits at that moment and with exactly the registered request; called-back plus '
+         'still-waiting entries are a permutation of previously-waiting plus newly-registered ones (exactly once); calls are a '
+         'subsequence of the waiting list (registration order). For manager + "check pending" flag: every operation that can '
+         'make a request feasible schedules a check, a completed check re-establishes the invariant whatever the callbacks do, '
+         'hence with no check pending no feasible request waits; the check event is OTHER_HIGH_PRIORITY at now with asset -1 '
+         '(regenerated schedule-site fact), so by C01 it runs before the clock advances. Tie: family rm vs the real manager.',
+    note=BASE_NOTE,
+    technique='Lean 4 theorems over a generic scan + invariant proof + differential correspondence',
+)
+CLAIMED['C12'] = dict(
+    text='Theorems (Props/C12.lean) for every stream of requests/finishes with arbitrary target answers: create returns '
+         'exactly "not a duplicate" and a rejected request changes nothing; utilisation = sum of active needs; one order per '
+         'target; (target, tag) unique over queue+active; the scan starts orders in request order skipping exactly the '
+         'unstartable ones (recursive characterisation); after every create/finish no queued order is startable; capacity '
+         'never exceeded; cost charged once. The event glue (START_WORK at now, FINISH_WORK at now + duration read at start, '
+         'hooks once) is part of the executable model and checked by correspondence and monitor, not a theorem (partial).',
+    note=BASE_NOTE + ' Hypothesis: needed capacities >= 0.',
+    technique='Lean 4 invariant proof over the maintainer model + differential correspondence',
+)
+CLAIMED['C18'] = dict(
+    text='Theorems (Props/C18.lean) for every timetable, registration list and number of transitions: the k-th state change '
+         'of a cyclical scheduler happens at t0 + sum of the first k durations (cyclically) and enters entry k mod n; a '
+         'non-cyclical one visits each entry once and then stops; period = total duration; each change acts on exactly the '
+         'objects registered at that moment in registration order; (un)registration takes effect from the next change. '
+         'Tie: family sched vs the real ActionScheduler (default of is_cyclical exercised by omission).',
+    note=BASE_NOTE,
+    technique='Lean 4 theorems by induction over transitions + differential correspondence',
+)
+CLAIMED['C19'] = dict(
+    text='Theorems (Props/C19.lean) for every interval, capacity, probe count and value sequence: k-th periodic measurement '
+         'at start + k*interval; output-part sensor measures part j iff j mod (n+1) = 0; one value per probe; every probe '
+         'series AND the time series equal the last min(count, c) samples (aligned); Cms.add_sensor idempotent. '
+         'Tie: family sensor vs the real sensors (after the F4 fix).',
+    note=BASE_NOTE,
+    technique='Lean 4 theorems over the sensor model + differential correspondence',
+)
+
 NOT_CLAIMED = {}
